@@ -602,12 +602,16 @@ func pbGetQueryDeserialize(in *pbx.GetQuery) *MsgGetQuery {
 	if desc := in.GetDesc(); desc != nil {
 		msg.Desc = &MsgGetOpts{
 			IfModifiedSince: int64ToTime(desc.GetIfModifiedSince()),
+			User:            desc.GetUser(),
+			Topic:           desc.GetTopic(),
 			Limit:           int(desc.GetLimit()),
 		}
 	}
 	if sub := in.GetSub(); sub != nil {
 		msg.Sub = &MsgGetOpts{
 			IfModifiedSince: int64ToTime(sub.GetIfModifiedSince()),
+			User:            sub.GetUser(),
+			Topic:           sub.GetTopic(),
 			Limit:           int(sub.GetLimit()),
 		}
 	}
